@@ -6,10 +6,11 @@
 //!
 //! Layout: nine families (one module each), each a function `(cx, world, rng, budget)`:
 //!   did      DID / DID-URL / IotaDID / DIDJwk strings, join, setters
-//!   core     timestamps, Url, base encodings, OneOrMany/OneOrSet/OrderedSet JSON
+//!   core     timestamps (+ arithmetic with deserialised durations at both range ends), Url, base encodings, OneOrMany/OneOrSet/OrderedSet JSON
 //!   jwk      Jwk / JwkSet JSON, jsonprooftoken conversions, the three verifiers on attacker JWKs
 //!   jws      Decoder in 3 serializations (+detached), headers, claims, verify
-//!   docs     CoreDocument / IotaDocument / Service / VerificationMethod JSON, StateMetadataDocument::unpack
+//!   docs     CoreDocument / IotaDocument / Service / VerificationMethod JSON, StateMetadataDocument::unpack (+ into_iota_document
+//!            for every DID the input mentions), pack, non-injective DID maps over documents with respelled identifiers
 //!   cred     Credential / Presentation / Status / Subject ... JSON and validator utils
 //!   valid    JwtCredentialValidator / JwtPresentationValidator / SdJwtCredentialValidator over signed tokens
 //!   status   StatusList2021 (encoded lists, entries, credentials), RevocationBitmap services
@@ -320,7 +321,10 @@ fn main() {
      defects, and byte/JSON-structure mutation of the repo's own fixtures and of tokens/documents signed by harness keys; \
      non-trivial+distinct = (entry point, accepted|rejected, generator) classes; every accepted value gets the accessor sweep; \
      multi-layer encodings carry hostile inner texts (char-boundary ladders: every byte offset inside a multi-byte character in some variant); \
-     structurally self-referential inputs (cyclic webs of documents, recursive schema references; feature sdjwtvc) run as isolated child-process probes",
+     structurally self-referential inputs (cyclic webs of documents, recursive schema references; feature sdjwtvc) run as isolated child-process probes; \
+     every accepted timestamp is added to / subtracted from wire-format (deserialised: negative, fractional, huge) durations, including the ones that take it exactly onto and one step \
+     beyond either end of the range, and every sum handed out goes through all formatters; documents in which one set holds the same identifier under two spellings of its DID \
+     (placeholder, unpack target, own, foreign) go through unpack-for-every-DID-they-mention, pack, and try_map / map_unchecked with non-injective DID maps",
   );
   let world = world::World::new();
   cx.rep.note("seed_corpus", json!({"json": world.seeds.json.len(), "jws": world.seeds.jws.len(), "dids": world.seeds.dids.len()}));
